@@ -97,3 +97,146 @@ def register(op, g):
             except ValueError:
                 out.append(None)
         return out
+
+
+def _walk(co):
+    yield co
+    for c in co.co_consts:
+        if hasattr(c, "co_code"):
+            for x in _walk(c):
+                yield x
+
+
+def _canon(v):
+    """canonical S-expression-ish tree of a constant (kinds explicit)"""
+    import struct, binascii
+    t = type(v).__name__
+    if v is None:
+        return ["none"]
+    if v is True or v is False:
+        return ["bool", bool(v)]
+    if v is Ellipsis:
+        return ["ellipsis"]
+    if t in ("int", "long"):
+        return [t if sys.version_info[0] == 2 else "int", str(v)]
+    if t == "float":
+        return ["float", binascii.hexlify(struct.pack(">d", v)).decode("ascii")]
+    if t == "complex":
+        return ["complex", binascii.hexlify(struct.pack(">d", v.real)).decode("ascii"), binascii.hexlify(struct.pack(">d", v.imag)).decode("ascii")]
+    if t == "bytes" or (t == "str" and sys.version_info[0] == 2):
+        return ["bytes" if sys.version_info[0] == 3 else "str2", binascii.hexlify(v).decode("ascii")]
+    if t == "unicode" or (t == "str" and sys.version_info[0] == 3):
+        return ["unicode" if sys.version_info[0] == 2 else "str", [ord(c) for c in v]]
+    if t in ("tuple", "list"):
+        return [t, [_canon(x) for x in v]]
+    if t in ("set", "frozenset"):
+        return [t, sorted((_canon(x) for x in v), key=repr)]
+    if t == "dict":
+        return ["dict", sorted(([_canon(k), _canon(x)] for k, x in v.items()), key=repr)]
+    if hasattr(v, "co_code"):
+        return ["code", getattr(v, "co_name", "?")]
+    if v is StopIteration:
+        return ["stopiteration"]
+    return ["other", t]
+
+
+def _code_fields(co):
+    import binascii
+    hx = lambda b: binascii.hexlify(b).decode("ascii")
+    d = {}
+    for f in ("co_argcount", "co_posonlyargcount", "co_kwonlyargcount", "co_nlocals", "co_stacksize", "co_flags", "co_firstlineno"):
+        if hasattr(co, f):
+            d[f] = getattr(co, f)
+    d["co_code"] = hx(co.co_code)
+    for f in ("co_names", "co_varnames", "co_freevars", "co_cellvars"):
+        d[f] = [_canon(x) for x in getattr(co, f)]
+    d["co_filename"] = _canon(co.co_filename)
+    d["co_name"] = _canon(co.co_name)
+    if hasattr(co, "co_qualname"):
+        d["co_qualname"] = _canon(co.co_qualname)
+    d["linetable"] = hx(co.co_linetable if hasattr(co, "co_linetable") else co.co_lnotab)
+    if hasattr(co, "co_exceptiontable"):
+        d["co_exceptiontable"] = hx(co.co_exceptiontable)
+    d["co_consts"] = [_canon(x) for x in co.co_consts]
+    return d
+
+
+def _register2(op, g):
+    unhex, tohex = g["unhex"], g["tohex"]
+    import marshal, struct, time
+
+    @op
+    def compile_program(a):
+        """compile source; return a .pyc image (this interpreter's header + marshal), and for
+        every code object (pre-order) its fields and this interpreter's dis view"""
+        try:
+            co = compile(a["source"], a.get("filename", "prog.py"), "exec")
+        except SyntaxError as e:
+            return {"syntax_error": str(e)[:80]}
+        try:
+            import importlib.util
+            magic = importlib.util.MAGIC_NUMBER
+        except Exception:
+            import imp
+            magic = imp.get_magic()
+        body = marshal.dumps(co)
+        if PY >= (3, 7):
+            hdr = magic + struct.pack("<III", 0, a.get("mtime", 1700000000), len(a["source"]) & 0xFFFFFFFF)
+        elif PY >= (3, 3):
+            hdr = magic + struct.pack("<II", a.get("mtime", 1700000000), len(a["source"]) & 0xFFFFFFFF)
+        else:
+            hdr = magic + struct.pack("<I", a.get("mtime", 1700000000))
+        codes = []
+        for c in _walk(co):
+            ent = {"fields": _code_fields(c)}
+            if PY >= (3, 4):
+                ins = []
+                for i in dis.get_instructions(c):
+                    av = i.argval
+                    if hasattr(av, "co_code"):
+                        av = ["code", av.co_name]
+                    elif not isinstance(av, (int, str, type(None))):
+                        av = _canon(av)
+                    ins.append([i.offset, i.opcode, i.opname, i.arg, av, bool(i.is_jump_target),
+                                getattr(i, "starts_line", None) if PY < (3, 13) else (i.line_number if i.starts_line else None)])
+                ent["instrs"] = ins
+                ent["labels"] = list(dis.findlabels(c.co_code))
+                ent["linestarts"] = [[o, l] for o, l in dis.findlinestarts(c)]
+            else:
+                ent["labels"] = list(dis.findlabels(c.co_code))
+                ent["linestarts"] = [[o, l] for o, l in dis.findlinestarts(c)]
+                ent["unpack"] = OPS_["unpack"]({"code": tohex(c.co_code)})
+                import StringIO
+                old = sys.stdout
+                sys.stdout = buf = StringIO.StringIO()
+                try:
+                    dis.disassemble(c)
+                finally:
+                    sys.stdout = old
+                txt = []
+                for line in buf.getvalue().split("\n"):
+                    m = re.match(r"^(\s*\d+|\s{3})\s(-->|\s{3})\s(>>|\s{2})\s(\s*\d+)\s(\S+)\s*(\d+)?\s*(\(.*\))?\s*$", line)
+                    if m:
+                        txt.append([int(m.group(4)), m.group(5), int(m.group(6)) if m.group(6) else None, m.group(7), m.group(3) == ">>",
+                                    int(m.group(1)) if m.group(1).strip() else None])
+                ent["dis27"] = txt
+            if PY >= (3, 11):
+                ent["exc"] = [[e.start, e.end, e.target, e.depth, bool(e.lasti)] for e in dis._parse_exception_table(c)]
+                ent["positions"] = [list(p) for p in c.co_positions()]
+                ent["co_lines"] = [list(p) for p in c.co_lines()]
+            elif PY >= (3, 10):
+                ent["co_lines"] = [list(p) for p in c.co_lines()]
+            codes.append(ent)
+        return {"pyc": tohex(hdr + body), "codes": codes, "magic": struct.unpack("<H", magic[:2])[0]}
+
+
+OPS_ = {}
+_old_register = register
+
+
+def register(op, g):
+    def op2(f):
+        OPS_[f.__name__] = f
+        return op(f)
+    _old_register(op2, g)
+    _register2(op2, g)
